@@ -247,11 +247,12 @@ theorem sweepLoop_sim (sc : Scripts) : ∀ (fuel : Nat) (w : World), WheelInv w 
   | succ fuel ih =>
     intro w h hq h0 hs
     unfold sweepLoop
+    rw [tie_sweepCond]
     by_cases hlt : w.cot < w.now
-    · rw [if_pos hlt]
+    · rw [if_pos (by simpa using hlt)]
       obtain ⟨a, b, c, _, _⟩ := sweepSecond_ok sc h hq hlt
       exact ih _ a b (by rw [c]; omega) (sweepSecond_sim sc h hq hlt hs)
-    · rw [if_neg hlt]; exact hs
+    · rw [if_neg (by simpa using hlt)]; exact hs
 
 theorem sweep_sim (sc : Scripts) {w : World} (h : WheelInv w) (hq : Quiet w) (hs : Sim true w) :
     Sim true (sweep sc w) := by
